@@ -426,9 +426,9 @@ def judge_load(chk, env, adapter_kind, text, stratum, record=True):
     return verdict, base, obs, m_obs, in_grammar
 
 
-def too_many(chk, cap=3):
+def too_many(chk, cap=3, spec=False):
     """after a few recorded failures further ones are only counted (shrinking each would take minutes)"""
-    if len(chk.spec_failures) + len(chk.disagreements) >= cap:
+    if len(chk.spec_failures if spec else chk.disagreements) >= cap:
         chk.extra["further_failures_not_shrunk"] = chk.extra.get("further_failures_not_shrunk", 0) + 1
         return True
     return False
@@ -464,18 +464,22 @@ def stratum_lines(chk, maxlen):
     lines = ["".join(t) for n in range(maxlen + 1) for t in itertools.product(ALPHA, repeat=n)]
     rep = chk.oracle.query([(3, l) for l in lines])
     rep_spec = chk.oracle.query([(4, l) for l in lines])
+    rep_ok = chk.oracle.query([(11, l) for l in lines])
     bad = 0
-    for l, m, s in zip(lines, rep, rep_spec):
+    for l, m, s, (_, _, in_grammar) in zip(lines, rep, rep_spec, rep_ok):
         o = impl_parse_line(l)
         nontrivial = o[0] == 0 and o[1] != [] and len(o[1][0][1]) >= 1
         chk.count(("line", l) if nontrivial else None)
-        if o != s:
+        if o != s and in_grammar:
+            # on the line grammar spec_parse IS the property's second sentence (split_top, trim, first field)
             bad += 1
             if bad <= 3:
-                chk.spec_fail(dict(kind="line", line=l), o, s, "load_policy_line differs from spec_parse (split at "
-                              "top-level commas, trim, IndexError exactly on leading bracket / underflow / blank key)")
-        elif o != m and not too_many(chk):
-            chk.disagree(dict(kind="line", line=l), o, m, where="load_policy_line vs Csv.parse_line")
+                chk.spec_fail(dict(kind="line", line=l), o, s, "load_policy_line: a line of the grammar is not split at "
+                              "its top-level commas, trimmed and attached by its first field")
+        elif (o != s or o != m) and not too_many(chk):
+            chk.disagree(dict(kind="line", line=l), o, s if o != s else m,
+                         where="load_policy_line vs Csv.spec_parse / Csv.parse_line outside the line grammar "
+                               "(IndexError exactly on leading bracket / bracket underflow / blank key; leading-comma quirk)")
     chk.extra.setdefault("strata", {})["exhaustive_lines"] = len(lines)
     idx = chk.rng.sample(range(len(lines)), 60)
     return [(3, lines[i]) for i in idx], [rep[i] for i in idx]
@@ -510,7 +514,7 @@ def stratum_fields(chk, env, maxlen):
                 except Exception as ex:  # noqa
                     got = obs_err(ex)
                 chk.count(("field-rt", kind, f) if (f == "" or set(f) & SPECIAL) else None)
-                if got != [0, [rule]] and not too_many(chk):
+                if got != [0, [rule]] and not too_many(chk, spec=True):
                     chk.spec_fail(dict(kind="roundtrip", adapter=kind, model="rbac4",
                                        policy={"p": [rule], "p2": [], "g": [], "g2": []}, stratum="exhaustive-fields"),
                                   got, [0, [rule]], "one-rule save -> load lost the rule")
@@ -543,12 +547,12 @@ def stratum_roundtrip(chk, env, n):
                 if is_f12(ad, pol, obs):
                     judge_roundtrip(chk, env, ad, mk, pol, st, record=True)
                     continue
-                if too_many(chk):
+                if too_many(chk, spec=(verdict == "spec")):
                     continue
                 small = shrink_policy(pol, lambda c: judge_roundtrip(chk, env, ad, mk, c, st, record=False)[0] == verdict
                                       and not is_f12(ad, c, run_roundtrip(env, ad, mk, c)[2]))
                 judge_roundtrip(chk, env, ad, mk, small, st + "/shrunk", record=True)
-            elif len(reqs) < 60:
+            elif len(reqs) < VMCAP[0]:
                 reqs.append((10 if ad == "string" else 9, wire(before)))
                 reps.append(m_rt)
     chk.traces += len(cases) * len(ADAPTERS)
@@ -572,10 +576,10 @@ def stratum_texts(chk, env, n):
             counts["in_grammar" if in_grammar else "outside_grammar"] += 1
             loaded = obs[0] == 0 and any(a[2] for a in obs[1])
             chk.count((ad, text) if loaded else None)
-            if verdict != "ok" and not too_many(chk):
+            if verdict != "ok" and not too_many(chk, spec=(verdict == "spec")):
                 small = shrink_text(text, lambda c: judge_load(chk, env, ad, c, st, record=False)[0] == verdict)
                 judge_load(chk, env, ad, small, st + "/shrunk", record=True)
-            elif len(reqs) < 60:
+            elif len(reqs) < VMCAP[0]:
                 reqs.append((6 if ad == "string" else 5, [text, wire(base)]))
                 reps.append(m_obs)
     chk.traces += len(cases) * len(ADAPTERS)
@@ -583,7 +587,11 @@ def stratum_texts(chk, env, n):
     return reqs, reps
 
 
+VMCAP = [60]
+
+
 def run(chk, n_pol, n_text, maxlen):
+    VMCAP[0] = 60 if chk.tier == "quick" else 500
     if chk.oracle is None:
         chk.notes.append("oracle unavailable; correspondence not run")
         return
@@ -601,8 +609,6 @@ def run(chk, n_pol, n_text, maxlen):
         env.close()
     chk.exhaustive = True
     chk.extra["exhaustive_scope"] = f"all lines and all fields of length <= {maxlen} over {len(ALPHA)} symbols; all code points for the whitespace set"
-    if chk.tier == "thorough":
-        vm_reqs, vm_reps = vm_reqs * 1, vm_reps
     ok, n, log = core.vm_crosscheck(PROP, "From PyCasbin Require Import Base Csv.", "oracle_C10", vm_reqs, vm_reps)
     chk.vm_checked += n
     if not ok:
@@ -629,9 +635,9 @@ def replay(chk):
             bad = verdict == "spec"
         elif c.get("kind") == "line":
             o = impl_parse_line(c["line"])
-            s = chk.oracle.query([(4, c["line"])])[0]
-            print(f"replay: impl={o} spec={s}")
-            bad = o != s
+            s, (_, _, in_grammar) = chk.oracle.query([(4, c["line"]), (11, c["line"])])
+            print(f"replay: impl={o} spec={s} in_grammar={in_grammar}")
+            bad = o != s and bool(in_grammar)
         else:
             print("replay file names a broken theorem/correspondence, not an input:", json.dumps(rec.get("broken"))[:800])
             sys.exit(1)
@@ -673,9 +679,9 @@ def main():
     if chk.replay_file:
         return replay(chk)
     if chk.tier == "thorough":
-        run(chk, 6000, 6000, 4)
+        run(chk, 12000, 12000, 4)
     else:
-        run(chk, 700, 700, 4)
+        run(chk, 1400, 1400, 4)
         if chk.broken() and not chk.spec_failures:
             chk.notes.append("escalated to a bigger budget after a broken proof/correspondence")
             run(chk, 3000, 3000, 4)
